@@ -29,7 +29,7 @@ func DefaultFileCfg() FileCfg {
 	return FileCfg{CF: cf, MaxTops: 6, Texts: true, Movements: true, Marts: true, Maps: true, Raws: true, Format: true, MultiPart: true, Typed: true}
 }
 
-var textPool = []string{"Hello", "Hello$", "Hi there$", "Hi there", "Bye now$", "Bye now", "A {PLAYER} appears", "é ß ü", `Line one\nLine two`, `Wait\pMore`, "x", "Some longer text that needs wrapping when it is formatted for the box", "Ends in dollar$", ""}
+var textPool = []string{"Hello", "Hello$", "Hi there$", "Hi there", "Bye now$", "Bye now", "A {PLAYER} appears", "é ß ü", `Line one\nLine two`, `Wait\pMore`, "x", "Some longer text that needs wrapping when it is formatted for the box", "Ends in dollar$", "100% sure", "5%% %s %d", ""}
 var stepPool = []string{"walk_up", "walk_down", "walk_left", "face_right", "delay_16", "jump_2_up", "step_end"}
 var itemPool = []string{"ITEM_POTION", "ITEM_ANTIDOTE", "ITEM_REPEL", "ITEM_NONE", "ITEM_POKE_BALL", "ITEM_RARE_CANDY"}
 var stringTypes = []string{"ascii", "braille", "custom"}
@@ -143,7 +143,17 @@ func (g *fileGen) decorate(b *Block) {
 		if spec, ok := g.cfg.CF.Auto[c.Name]; ok && spec.ArgPos != nil {
 			return
 		}
-		switch rapid.IntRange(0, 5).Draw(g.t, "inline") {
+		switch rapid.IntRange(0, 6).Draw(g.t, "inline") {
+		case 6:
+			// two inline texts in one command, in either order of typed / untyped
+			a, b := &Arg{Text: g.textVal()}, &Arg{Text: g.textVal()}
+			if a.Text.Lit.Type == "" && b.Text.Lit.Type == "" {
+				a.Text.Lit.Type = rapid.SampledFrom(stringTypes).Draw(g.t, "twotype")
+			}
+			if rapid.Bool().Draw(g.t, "twoorder") {
+				a, b = b, a
+			}
+			c.Args = append(c.Args, a, b)
 		case 0:
 			a := &Arg{Text: g.textVal()}
 			pos := rapid.IntRange(0, len(c.Args)).Draw(g.t, "inlinepos")
